@@ -1,0 +1,51 @@
+//go:build verif
+
+package lazyproto
+
+// This file is only compiled with the "verif" build tag.  It lets the verification harness in
+// /verif observe the points at which a DecodeResult changes hands between a Decoder's pool and
+// its caller, and a projection of a result's internal state.
+
+// VerifHook, when set, is called at "pool.get" (a result was just taken from the pool or freshly
+// created, before it is filled) and at "pool.put" (a result is about to be returned to its pool).
+// Set it before any goroutine uses a Decoder.
+var VerifHook func(event string, r *DecodeResult)
+
+func verifPoint(event string, r *DecodeResult) {
+	if h := VerifHook; h != nil {
+		h(event, r)
+	}
+}
+
+// VerifSnapshot is a projection of the internal state of a DecodeResult.
+type VerifSnapshot struct {
+	Closers    int   // len(closers)
+	NilClosers int   // number of nil entries in closers
+	CapClosers int   // cap(closers)
+	DataLens   []int // len(flatData[i].data) per flat tag
+	SkipClose  bool
+	Unsafe     bool
+}
+
+// VerifSnapshot returns the current projection of r (nil-safe).
+func (r *DecodeResult) VerifSnapshot() VerifSnapshot {
+	var s VerifSnapshot
+	if r == nil {
+		return s
+	}
+	s.Closers, s.CapClosers = len(r.closers), cap(r.closers)
+	for _, c := range r.closers {
+		if c == nil {
+			s.NilClosers++
+		}
+	}
+	for _, fd := range r.flatData {
+		if fd == nil {
+			s.DataLens = append(s.DataLens, -1)
+			continue
+		}
+		s.DataLens = append(s.DataLens, len(fd.data))
+	}
+	s.SkipClose, s.Unsafe = r.skipClose, r.unsafe
+	return s
+}
